@@ -34,7 +34,7 @@ OWNER = 1
 # --------------------------------------------------------------------------- cases
 # case dict: P, fixed, num, del ('F'|'M'), seed, I = per rank list of (g, a, pub, l) sorted by g, D = per rank sorted globals
 
-OPT_DEFAULT = dict(nb=0, self=0, ign=0, gt=0, twice=0, nobar=0, mc=0, sf=0, da=0, ck=0, hist=0)
+OPT_DEFAULT = dict(nb=0, self=0, ign=0, gt=0, twice=0, nobar=0, mc=0, sf=0, da=0, ck=0, hist=0, gs=0, ao=0)
 
 
 def fmt_case(c):
@@ -49,9 +49,15 @@ def fmt_case(c):
         t.append(len(c["forget"]))
         for a, b in c["forget"]:
             t += [a, b]
-    for k in ("nb", "self", "ign", "gt", "twice", "nobar", "mc", "sf", "da", "ck", "hist"):
+    for k in ("nb", "self", "ign", "gt", "twice", "nobar", "mc", "sf", "da", "ck", "hist", "gs", "ao"):
         if c.get(k):
             t.append("%s=%d" % (k, c[k]))
+    if c.get("fx"):
+        t.append("fx=" + ",".join(map(str, c["fx"])))
+    if c.get("nm"):
+        t.append("nm=" + ",".join(map(str, c["nm"])))
+    if c.get("st2"):
+        t.append("st2=%d:%s" % (c["st2"], ":".join(".".join(map(str, d)) for d in c["D2"])))
     if c.get("cm"):
         t.append("cm=" + ",".join(map(str, c["cm"])))
     if c.get("nb"):
@@ -85,6 +91,11 @@ def parse_case(line):
             c[k] = int(v)
         elif k == "cm":
             c["cm"] = [int(x) for x in v.split(",") if x]
+        elif k in ("fx", "nm"):
+            c[k] = [int(x) for x in v.split(",") if x]
+        elif k == "st2":
+            f = v.split(":")
+            c["st2"] = int(f[0]); c["D2"] = [[int(x) for x in d.split(".") if x] for d in f[1:]]
         elif k[0] == "h":
             c["hints"][int(k[1:])] = [int(x) for x in v.split(",") if x]
         elif k == "grow":
@@ -93,6 +104,19 @@ def parse_case(line):
                 c["grow"].append(dict(p=int(f[0]), g=int(f[1]), a=int(f[2]), l=int(f[3]),
                                       to=[tuple(int(y) for y in x.split(".")) for x in f[4].split("+")]))
     return c
+
+
+def fixed_of(c, p):
+    return c["fx"][p] if c.get("fx") else c["fixed"]
+
+
+def num_of(c, p):
+    return c["nm"][p] if c.get("nm") else c["num"]
+
+
+def all_fixed(c):
+    """every rank processes its messages in fixed order (sync() without numberer always uses the arrival order)"""
+    return all(fixed_of(c, p) and num_of(c, p) for p in range(c["P"]))
 
 
 def lstr(l):
@@ -177,13 +201,31 @@ def strip_obs(world, keepY=True):
 def orders_of(c, rng):
     """per rank the order in which the model processes its sources: ascending for fixed order, a seeded permutation otherwise"""
     _, lists = world_struct(c, "D")
+    return orders_from(c, [sorted(l) for l in lists], rng)
+
+
+def orders_from(c, nbs, rng):
     res = []
     for p in range(c["P"]):
-        nb = sorted(lists[p])
-        if not (c["fixed"] and c["num"] != 0):
+        nb = list(nbs[p])
+        if not (fixed_of(c, p) and num_of(c, p) != 0):
             rng.shuffle(nb)
         res.append(",".join(map(str, nb)) if nb else "-")
     return res
+
+
+def world_delete(c, w, D2):
+    """the world dump w after every rank p deleted the copies D2[p] with their remote entries (lists kept when empty)"""
+    res = []
+    for p, (iset, lists) in enumerate(parse_world(w)):
+        dels = set(D2[p])
+        iset = [x for x in iset if x[0] not in dels]
+        posn = {x[0]: k for k, x in enumerate(iset)}
+        s = "I" + "".join(" %d.%d.%s.%d" % x for x in iset) + " R"
+        for q in sorted(lists):
+            s += " %d:%s" % (q, ",".join("%d.%d.%d.%d" % (g, la, ra, posn[g]) for g, la, ra, k in lists[q] if g not in dels))
+        res.append(s + " Y 1")
+    return " / ".join(res)
 
 
 def gen_one(rng, NP, force=None):
@@ -305,6 +347,29 @@ def gen_one(rng, NP, force=None):
             if any(gr["g"] == g for gr in c["grow"]):
                 g = fresh + 10 + k
             c["grow"].append(dict(p=p, g=g, a=rng.choice([1, 2, 3]), l=50 + k, to=[(q, rng.choice([1, 2, 3])) for q in sorted(to)]))
+    # ---- dimension audit 2
+    # C/D: where the globals sit in the value range of the GlobalIndex type (sign boundary / minimum / maximum), order of the add()
+    #      calls and of the neighbour hints
+    c["gs"] = rng.choice([0, 0, 1, 2, 3])
+    c["ao"] = rng.choice([0, 0, 1, 2])
+    # B: per-rank useFixedOrder / numberer (sync() on some ranks, sync(numberer[, true]) on others)
+    if P >= 2 and not c["nobar"] and rng.random() < .35:
+        c["fx"] = [rng.choice([0, 1]) for _ in range(P)]
+        c["nm"] = [rng.choice([0, 1, 1, 2]) for _ in range(P)]
+        if len(set(c["fx"])) == 1 and len(set(c["nm"])) == 1:
+            c["fx"][0] = 1 - c["fx"][0]
+    # A: second stage on the synced state: delete again (preferably what was just re-added), sync again with a fresh / the SAME /
+    #    a copied IndicesSyncer object
+    if P >= 2 and dl != "m" and not c["twice"] and not c["hist"] and not c["nb"] and restore_judged(c) and rng.random() < .8:
+        c["st2"] = rng.choice([1, 2, 2, 2, 3])
+        D2 = []
+        for r in range(P):
+            d = []
+            for q in I[r]:
+                if q[1] != OWNER and rng.random() < (.7 if q[0] in D[r] else .3):
+                    d.append(q[0])
+            D2.append(d)
+        c["D2"] = D2
     if c["forget"] and not c["nb"]:
         c["hist"] = 0      # the hand-filled RemoteIndices of the forgotten-neighbour construction has never been built: rebuild() is not a no-op there
     return c
@@ -346,16 +411,17 @@ def run_impl(ctx, exe, np, cases, tag, case_timeout=30, env_extra=None, max_bad=
 
 
 def sections(l):
-    """[B, D, S, T-or-None, H-or-None] of an impl line, None when there is no observation"""
+    """[B, D, S, T-or-None, H-or-None, U-or-None] of an impl line, None when there is no observation"""
     if is_noobs(l):
         return None
     parts = l.split(" # ")
     if len(parts) < 3 or not (parts[0].startswith("B ") and parts[1].startswith("D ") and parts[2].startswith("S ")):
         return None
-    res = [parts[0][2:], parts[1][2:], parts[2][2:], None, None]
+    res = [parts[0][2:], parts[1][2:], parts[2][2:], None, None, None]
     for x in parts[3:]:
         if x.startswith("T "): res[3] = x[2:]
         elif x.startswith("H "): res[4] = x[2:]
+        elif x.startswith("U "): res[5] = x[2:]
         else: return None
     return res
 
@@ -405,11 +471,23 @@ def s_of(l):
     return None if sec[2].startswith("SKIPPED") else strip_obs(sec[2])
 
 
+def model_head(c):
+    nums = [num_of(c, p) for p in range(c["P"])]
+    return "%s %d" % (",".join(map(str, nums)) if c.get("nm") else str(c["num"]), 1 if all(n == 1 for n in nums) else 0)
+
+
+def run_model(ctx, model, lines, tag):
+    res = V.run_cases(ctx, [model], lines, tag=tag, timeout=900)
+    for f in glob.glob(ctx.path("%s.cases.*" % tag)):
+        try: os.remove(f)
+        except OSError: pass
+    return res
+
+
 def model_lines(ctx, model, pcs, orders, impl_S, tag):
     lines = []
     for c, o, s in zip(pcs, orders, impl_S):
-        exact = 1 if c["num"] == 1 else 0
-        lines.append("%d %d ; %s # %s # %s # %s" % (c["num"], exact, " ; ".join(o), world_after_rebuild(c), world_after_rebuild(c, True), s or "-"))
+        lines.append("%s ; %s # %s # %s # %s" % (model_head(c), " ; ".join(o), world_after_rebuild(c), world_after_rebuild(c, True), s or "-"))
     res = V.run_cases(ctx, [model], lines, tag=tag, timeout=900)
     for f in glob.glob(ctx.path("%s.cases.*" % tag)):
         try: os.remove(f)
@@ -448,9 +526,9 @@ def numberer_calls_ok(c, S, exp_D):
     """The recording numberer must be called exactly once per index that sync adds (fix 23083bc), never for known ones; with a
     single old neighbour (one message) the calls must come in ascending global order, as indicessyncer.hh documents.
     -> None or a reason."""
-    if c["num"] == 0:
-        return None                              # sync() without numberer: nothing recorded
     for r, (sr, dr) in enumerate(zip(S.split(" / "), exp_D.split(" / "))):
+        if num_of(c, r) == 0:
+            continue                             # sync() without numberer: nothing recorded
         m = re.search(r" N ?([0-9,]*)$", sr.rstrip())
         calls = [int(x) for x in m.group(1).split(",") if x] if m else []
         gs = lambda dump: [int(t.split(".")[0]) for t in dump.split(" R")[0].split()[1:]]
@@ -461,6 +539,57 @@ def numberer_calls_ok(c, S, exp_D):
         if nnb == 1 and calls != sorted(calls):
             return "rank %d: numberer not called in ascending global order within one message: %s" % (r, calls)
     return None
+
+
+def stage2_inputs(c, impl, m2, rng):
+    """model case line of the second stage (st2=) or None: B2 = the world the (repaired) model computes for the first sync,
+    D2 = B2 after the second deletion, S2 = the implementation's state after the second sync"""
+    if not c.get("st2") or is_noobs(impl):
+        return None
+    sec, sm = sections(impl), split_model(m2)
+    if sec is None or sm is None or sec[5] is None or " ## " not in sec[5] or "PASTEND" in sm[1] or "DEADLOCK" in sm[1] or "OUTOFFUEL" in sm[1]:
+        return None
+    B2 = sm[1]
+    D2 = world_delete(c, B2, c["D2"])
+    d2i, s2i = sec[5].split(" ## ", 1)
+    nbs = [sorted(l) for _, l in parse_world(D2)]
+    o = orders_from(c, nbs, rng)
+    return "%s ; %s # %s # %s # %s" % (model_head(c), " ; ".join(o), B2, D2, "-" if s2i.startswith("SKIPPED") else strip_obs(s2i)), B2, D2, o
+
+
+def judge2(c, impl, st2in, m3):
+    """verdict on the second stage -> (kind, signature, reason)"""
+    which = {1: "fresh-object", 2: "same-object", 3: "copied-object"}.get(c["st2"], "?")
+    sec = sections(impl)
+    if st2in is None or sec is None or sec[5] is None:
+        return "violation", "C13:stage2:no-result", "no observation of the second stage"
+    line, B2, D2, o = st2in
+    sm = split_model(m3)
+    if sm is None:
+        return "corr", "corr:C13/model", "model driver output unreadable (stage 2): %s" % m3[:200]
+    asis, fixed, fl, vd = sm
+    d2i, s2i = sec[5].split(" ## ", 1)
+    if strip_obs(d2i, False) != strip_obs(D2, False):
+        if c["del"] in "Mm":
+            return "violation", "C13:RemoteIndexListModifier:repairLocalIndexPointers", \
+                   "second stage: after RemoteIndexListModifier<T,A,true>::remove + repairLocalIndexPointers() on the synced state: got [%s] expected [%s]" % (strip_obs(d2i, False), strip_obs(D2, False))
+        return "corr", "corr:C13/delete2", "state after the second deletion differs from the expected one: got [%s] expected [%s]" % (strip_obs(d2i, False), strip_obs(D2, False))
+    if s2i.startswith("SKIPPED"):
+        return "corr", "corr:C13/delete2", "harness skipped the second sync"
+    bad = [k for k in ("sv", "mono", "compl", "synced") if vd.get(k) != "1"]
+    # (as in stage 1: with ignorePublic a deleted NON-public copy comes back public by construction -- restore not judged then)
+    nonpub2 = c.get("ign") and any((not q[2]) and q[0] in c["D2"][p] for p, r in enumerate(c["I"]) for q in r)
+    if vd.get("pre") == "1" and vd.get("restore") != "1" and not nonpub2:
+        bad.append("restore")
+    if bad:
+        return "violation", "C13:stage2-%s:postcondition:%s" % (which, "+".join(bad)), \
+               "second stage (delete again on the synced state, sync with the %s): post-condition(s) %s violated: state [%s], the model gives [%s]" % (which, ",".join(bad), strip_obs(s2i), fixed)
+    nr = numberer_calls_ok(c, s2i, D2)
+    if nr:
+        return "violation", "C13:stage2-%s:numberer:calls" % which, nr
+    if strip_obs(s2i) != fixed:
+        return "corr", "corr:C13/sync2", "impl state after the second-stage sync differs from the model's (oracle accepts the impl's state)"
+    return "ok", "", ""
 
 
 def judge(c, line, impl, m2, exp_B, exp_D):
@@ -474,7 +603,7 @@ def judge(c, line, impl, m2, exp_B, exp_D):
     sec = sections(impl)
     if sec is None:
         return "corr", "corr:C13/dump", "unreadable impl line"
-    B, D, S, T, H = sec
+    B, D, S, T, H, U = sec
     if strip_obs(B) != exp_B:
         return "corr", "corr:C13/rebuild", "state after RemoteIndices::rebuild differs from the pairwise intersection (C04 territory)"
     if strip_obs(D, False) != strip_obs(exp_D, False):
@@ -558,7 +687,7 @@ def run(ctx):
         cases.append(gen_one(rng, NP))
     # small exhaustive-ish scope: 2 and 3 ranks, every deletion subset of a fixed 3-rank decomposition with third-party knowledge
     base = dict(P=3, fixed=1, num=1, seed=0, forget=[], hints=[[], [], []], grow=[], cm=[], nb=0, self=0, ign=0, gt=0, twice=0, nobar=0,
-                mc=0, sf=0, da=0, ck=0, hist=0, I=[[(1, 1, 1, 0), (2, 2, 1, 1), (4, 3, 1, 2)], [(1, 2, 1, 1), (2, 1, 1, 0), (3, 1, 1, 2)],
+                mc=0, sf=0, da=0, ck=0, hist=0, gs=0, ao=0, I=[[(1, 1, 1, 0), (2, 2, 1, 1), (4, 3, 1, 2)], [(1, 2, 1, 1), (2, 1, 1, 0), (3, 1, 1, 2)],
                                                 [(1, 3, 1, 0), (2, 3, 1, 1), (3, 2, 1, 2), (4, 1, 1, 3)]], **{"del": "F"})
     copies = [(r, q[0]) for r in range(3) for q in base["I"][r] if q[1] != OWNER]
     for mask in range(1 << len(copies)):
@@ -566,6 +695,8 @@ def run(ctx):
         for k, (r, g) in enumerate(copies):
             if mask >> k & 1: D[r].append(g)
         c = dict(base); c["D"] = D; c["fixed"] = mask & 1; c["seed"] = mask * 7 + 1
+        if mask % 3 == 0:          # second stage on the same syncer object: the complementary subset plus what was just re-added
+            c["st2"] = 2; c["D2"] = [[g for (r2, g) in copies if r2 == r and (g in D[r]) == (g % 2 == 0)] for r in range(3)]
         cases.append(c)
     lines = [fmt_case(c) for c in cases]
     orng = ctx.rng("orders")
@@ -595,7 +726,7 @@ def run(ctx):
     # and arrival-order cases of the main batch always keep the barrier (fixed-order cases run without it)
     sig6 = "C13:sync:back-to-back:any-source"
     cand6 = [i for i in sel if cases[i]["nobar"] and cases[i]["twice"] and not cases[i]["grow"] and cases[i]["P"] >= 3
-             and not (cases[i]["fixed"] and cases[i]["num"]) and cases[i]["del"] != "m"][:3]
+             and not all_fixed(cases[i]) and cases[i]["del"] != "m"][:3]
     defect[sig6] = False
     b2b_reps = 0
     for i6 in cand6:
@@ -618,7 +749,7 @@ def run(ctx):
                                            "useFixedOrder=true is immune)"})
             break
     for i in sel:
-        if cases[i]["nobar"] and not (cases[i]["fixed"] and cases[i]["num"]):
+        if cases[i]["nobar"] and not all_fixed(cases[i]):
             cases[i] = dict(cases[i]); cases[i]["nobar"] = 0; lines[i] = fmt_case(cases[i])
     d_same, d_grow = defect.get(probes[0][0], False), defect.get(probes[1][0], False)
     if d_same:
@@ -655,8 +786,15 @@ def run(ctx):
         impl_S.append(s_of(l))
     m2 = model_lines(ctx, model, [cases[i] for i in sel], [orders[i] for i in sel], impl_S, "model2")
 
+    # ---- second stage (st2=): the model runs once more, from the world it computed for the first sync
+    s2rng = ctx.rng("orders2")
+    st2in = [stage2_inputs(cases[i], io[j], m2[j], s2rng) for j, i in enumerate(sel)]
+    s2idx = [j for j in range(len(sel)) if st2in[j] is not None]
+    m3 = dict(zip(s2idx, run_model(ctx, model, [st2in[j][0] for j in s2idx], "model3"))) if s2idx else {}
+    st2_ok = 0
+
     nviol = ncorr = 0
-    dist = {"P": {}, "del": {}, "num": {}, "fixed": {}, "deleted_copies": {}, "forgotten_neighbour_pairs": {}, "neighbour_hints": {}, "includeSelf": {},
+    dist = {"second_stage": {}, "second_stage_redeleted_copies": 0, "per_rank_configuration": {}, "global_range": {}, "add_order": {},"P": {}, "del": {}, "num": {}, "fixed": {}, "deleted_copies": {}, "forgotten_neighbour_pairs": {}, "neighbour_hints": {}, "includeSelf": {},
             "ignorePublic": {}, "global_index_type": {}, "second_sync": {}, "second_sync_without_barrier": {}, "communicator": {}, "modifier_copied": {}, "receive_side_modifier": {},
             "defaults_swapped": {}, "communicator_kind": {}, "rebuild_after_sync": {}, "grown_pairs": {}, "large": {}, "restore_pre": {}, "new_entries": 0,
             "new_neighbours_discovered": 0}
@@ -668,7 +806,17 @@ def run(ctx):
         c = cases[i]
         expB, expD = world_after_rebuild(c), world_after_rebuild(c, True)
         kind, sig, reason = judge(c, lines[i], io[j], m2[j], expB, expD)
+        if kind == "ok" and c.get("st2"):
+            kind, sig, reason = judge2(c, io[j], st2in[j], m3.get(j, ""))
+            if kind == "ok": st2_ok += 1
         kinds.append(kind)
+        for k, v in (("second_stage", {0: "none", 1: "fresh syncer", 2: "same syncer object", 3: "copied syncer"}[c.get("st2", 0)]),
+                     ("per_rank_configuration", "mixed" if c.get("fx") else "uniform"),
+                     ("global_range", {0: "default", 1: "sign boundary", 2: "type minimum", 3: "type maximum"}[c["gs"]]),
+                     ("add_order", {0: "ascending", 1: "descending", 2: "scrambled"}[c["ao"]])):
+            dist[k][v] = dist[k].get(v, 0) + 1
+        if c.get("st2"):
+            dist["second_stage_redeleted_copies"] += sum(len(set(a) & set(b)) for a, b in zip(c["D"], c["D2"]))
         sm = split_model(m2[j])
         for k, v in (("P", c["P"]), ("del", c["del"]), ("num", c["num"]), ("fixed", c["fixed"]), ("deleted_copies", min(9, sum(len(d) for d in c["D"]))),
                      ("forgotten_neighbour_pairs", len(c.get("forget") or [])), ("neighbour_hints", c["nb"]), ("includeSelf", c["self"]),
@@ -695,6 +843,7 @@ def run(ctx):
             nviol += 1
             if nviol <= 60:
                 ctx.violation(sig, {"case": lines[i], "orders": orders[i], "impl": io[j], "model": m2[j], "oracle": reason,
+                                    "stage2_model_case": st2in[j][0] if st2in[j] else None, "stage2_model": m3.get(j),
                                     "expected_after_rebuild": expB, "expected_after_deletion": expD,
                                     "replay_cmd": "bin/check C13 --replay <this file>"})
         elif kind == "corr":
@@ -738,6 +887,8 @@ def run(ctx):
                 "useFixedOrder x deletion path {free functions, RemoteIndexListModifier<true>} x PMPI seed x rebuild mode {ring, neighbour hints via constructor / "
                 "setNeighbours, exact / superset / restricted} x includeSelf x ignorePublic x {int/chunk 4, long+2^40/chunk 100} x hand-grown pairs "
                 "(modifier insert(index, global)) x communicator {world order, MPI_Comm_split subset / reversed / rotated / shuffled: communicator ranks != world ranks} x second sync (fresh / same syncer object) x 1.2% large sets (101/150 globals) "
+                "x (audit 2) per-rank useFixedOrder/numberer x global range {default, sign boundary, type min, type max} x add order x second stage "
+                "(delete again on the synced state, sync with fresh/same/copied syncer) "
                 "+ all 2^k deletion subsets of one 3-rank decomposition; "
                 "non-trivial = P>1 and at least one copy deleted; distinct = distinct case lines",
         "samples": [lines[i] for i in sel[:2]] + [lines[i] for i in sel[len(sel) // 2: len(sel) // 2 + 2]],
@@ -746,7 +897,7 @@ def run(ctx):
         "model_order_dependent_cases": oi_bad, "publish_count_mismatch_cases": cnt_bad, "model_selfcheck_failures": self_bad,
         "sanitizer_cases": san_n, "sanitizer_disagreements": san_bad, "ndebug_cases": nd_n, "ndebug_disagreements": nd_bad,
         "numberer_call_sequences_checked": sum(1 for j, i in enumerate(sel) if cases[i]["num"] != 0 and kinds[j] == "ok" and cases[i]["del"] != "m"),
-        "audit_defect_probes": defect, "back_to_back_repetitions": b2b_reps, "exhaustive": False,
+        "second_stage_cases_ok": st2_ok, "audit_defect_probes": defect, "back_to_back_repetitions": b2b_reps, "exhaustive": False,
         "traces_validated_against_impl": len(sel) - nviol - ncorr,
     })
     ctx.assumptions += ["RemoteIndices::rebuild is checked against the pairwise-intersection semantics on every case, not verified here (C04)",
@@ -764,6 +915,11 @@ def replay(ctx, path):
     S = s_of(io[0])
     m = model_lines(ctx, model, [c], [orders], [S], "rmodel")
     kind, sig, reason = judge(c, line, io[0], m[0], world_after_rebuild(c), world_after_rebuild(c, True))
+    if kind == "ok" and c.get("st2"):
+        s2 = stage2_inputs(c, io[0], m[0], ctx.rng("orders2-replay"))
+        m3 = run_model(ctx, model, [s2[0]], "rmodel3") if s2 else [""]
+        kind, sig, reason = judge2(c, io[0], s2, m3[0])
+        print("stage 2 model case:", s2[0] if s2 else None); print("stage 2 model     :", m3[0])
     sm = split_model(m[0])
     print("case   :", line)
     print("impl   :", io[0])
